@@ -21,7 +21,7 @@ TECHNIQUE = (
 RULE = (
     "cases are (a) library objects built from generated operand values "
     "(boundary-biased integers around every power of two up to 2^70, nested "
-    "expressions to depth 3) judged class-side: encode == reference bytes, "
+    "expressions to depth 3, expression blocks of 50-90 operations and of 127/128/16383/16384 bytes) judged class-side: encode == reference bytes, "
     "decode(bytes+garbage) == object and consumes exactly len(bytes), "
     "out-of-range => ValueError; (b) byte strings (every first byte x "
     "reference-encoded or random operand bytes) judged byte-side against the "
